@@ -31,13 +31,15 @@ fn zip_seed(name: &str, fmt: &'static str, file: Vec<u8>) -> Seed {
 fn small_xlsx() -> Vec<u8> {
     let mut b = xlsx::XBook::default();
     b.sst = vec![xlsx::XText::plain("s0"), xlsx::XText { runs: vec![xlsx::XRun::R("r".into()), xlsx::XRun::R("t".into())], enc: xlsx::TextEnc::Entities }];
-    b.styles = Some(xlsx::XStyles { num_fmts: vec![(164, "yyyy\\-mm".into())], cell_xfs: vec![0, 14, 164], cell_style_xfs: vec![0], omit_general_numfmt: false });
+    b.styles = Some(xlsx::XStyles { num_fmts: vec![(164, "yyyy\\-mm".into()), (165, "\\[0.0\\]".into())], cell_xfs: vec![0, 14, 164, 165], cell_style_xfs: vec![0], omit_general_numfmt: false });
     let mut c1 = xlsx::XCell::new(1, 1, xlsx::XVal::Num("2".into())); c1.style = Some(1);
     c1.formula = Some(xlsx::XFormula::SharedMaster { si: 0, rf: "B2:B3".into(), text: "A1+1&\"q\"&'S 2'!A1".into() });
     let mut c2 = xlsx::XCell::new(2, 1, xlsx::XVal::Num("3".into())); c2.formula = Some(xlsx::XFormula::SharedChild { si: 0 });
     let mut sh = xlsx::XSheet::new("S1", vec![xlsx::XCell::new(0, 0, xlsx::XVal::SharedStr(1)), c1, c2, xlsx::XCell::new(2, 2, xlsx::XVal::InlineStr(xlsx::XText::plain("i"))), xlsx::XCell::new(3, 0, xlsx::XVal::Bool(true)), xlsx::XCell::new(3, 1, xlsx::XVal::Err("#N/A".into()))]);
     sh.merges = vec!["A1:B1".into()];
-    sh.tables = vec![xlsx::XTable { name: "T".into(), display_name: "T".into(), rf: "A2:B4".into(), header_rows: None, totals_rows: Some(1), totals_row_shown: None, columns: vec!["a".into(), "b".into()] }];
+    sh.tables = vec![xlsx::XTable { name: "T".into(), display_name: "T".into(), rf: "A2:B4".into(), header_rows: None, totals_rows: Some(1), totals_row_shown: None, columns: vec!["a".into(), "b".into()] },
+        // a table lying beside the used cells (legal: its cells are simply empty)
+        xlsx::XTable { name: "Beside".into(), display_name: "Beside".into(), rf: "E1:F3".into(), header_rows: None, totals_rows: None, totals_row_shown: None, columns: vec!["e".into(), "f".into()] }];
     b.sheets = vec![sh, xlsx::XSheet::new("S2", vec![xlsx::XCell::new(0, 0, xlsx::XVal::Num("1".into()))])];
     b.defined_names = vec![("n".into(), "S1!$A$1".into())];
     b.date1904 = Some(false);
@@ -67,10 +69,10 @@ fn xls_book() -> biff8::BBook {
     ];
     let mut s = biff8::BSheet::new("S1", cells);
     s.merges = vec![vec![(0, 0, 0, 1)]];
-    let mut chs = crate::engine::choice::Chooser::new(&[0, 1, 0, 1]);
+    let mut chs = crate::engine::choice::Chooser::new(&[0, 0, 1, 0, 1]);
     biff8::BBook { sheets: vec![s, biff8::BSheet::new("S2", vec![biff8::BCell::Number { r: 0, c: 0, xf: 0, v: 1.0 }])],
         sst_records: biff8::sst_records(&mut chs, &[biff8::SstString::plain("s0"), biff8::SstString { text: "s\u{20ac}1".into(), runs: 1, ext: vec![1, 2] }], 2),
-        formats: vec![(164, "yyyy\\-mm".into())], xfs: vec![0, 14, 164], extern_sheets: Some(vec![(1, 1)]), names: vec![("n".into(), vec![0x3A, 0, 0, 0, 0, 0, 0])], ..Default::default() }
+        formats: vec![(164, "yyyy\\-mm".into()), (165, "\\[0.0\\]".into())], xfs: vec![0, 14, 164, 165], extern_sheets: Some(vec![(1, 1)]), names: vec![("n".into(), vec![0x3A, 0, 0, 0, 0, 0, 0])], ..Default::default() }
 }
 
 fn small_ods() -> Vec<u8> {
@@ -89,7 +91,7 @@ fn small_ods() -> Vec<u8> {
 
 fn vproject() -> VProject {
     VProject { codepage: 1252, modules: vec![VModule { name: "Module1".into(), stream_name: "Module1".into(), source: b"Sub A()\r\n  x = 1\r\n  x = 1\r\nEnd Sub\r\n".to_vec(), text_offset: 3, mode: 0, class_module: false, read_only: true, private: false }],
-        refs: vec![VRef { name: "stdole".into(), kind: RefKind::Registered }, VRef { name: "MSForms".into(), kind: RefKind::Control { original: true, extended_name: true } }, VRef { name: "Other".into(), kind: RefKind::Project }], compat_version: true }
+        refs: vec![VRef { name: "stdole".into(), kind: RefKind::Registered }, VRef { name: "MSForms".into(), kind: RefKind::Control { original: true, extended_name: true } }, VRef { name: "Other".into(), kind: RefKind::Project }], compat_version: true, descriptive: false }
 }
 
 pub fn seeds(thorough: bool) -> Vec<Seed> {
